@@ -670,18 +670,7 @@ func runC01(c *eng.Ctx) {
 	})
 
 	// ---- 16. a new table's number ---------------------------------------------------------------------------------------------------
-	c.Rule("ORDER", famT+".newTableBuilder", func() {
-		f := c.Fn(famT + ".newTableBuilder")
-		n := c.One(f, invokeOn(".store", "nextFileNumber"), "store.nextFileNumber()")
-		pe := c.One(f, eng.CallTo(famT+".addPendingOutput"), "addPendingOutput(n)")
-		mk := c.One(f, eng.CallTo("kv/table.NewStoreBuilder"), "table.NewStoreBuilder(n, path)")
-		c.Check(eng.DominatedBy(f, mk.Instr, []eng.Site{pe}, nil) && eng.DominatedBy(f, pe.Instr, []eng.Site{n}, nil), "allocate<pending<create", mk.Instr, f,
-			"the number is allocated, marked pending, and only then the file is created (cleanup can never see an unmarked unfinished file)", "")
-		nv := n.Instr.(ssa.Value)
-		ma := eng.CallArgs(mk.Instr.(*ssa.Call))
-		c.Check(eng.CallArgs(pe.Instr.(*ssa.Call))[0] == nv && ma[0] == nv && eng.DependsOn(ma[1], func(x ssa.Value) bool { return x == nv }), "one-number", mk.Instr, f,
-			"the pending mark, the builder's number and the file name all use the one allocated number", "")
-	})
+	c.Rule("ORDER", famT+".newTableBuilder", func() { newTableBuilderClaimsFirst(c) })
 
 	c.Observe("a torn manifest tail makes recover fail (bufio entry reader reports ErrUnexpectedEOF) and newStore's deferred cleanup still runs after a failed Recover — noticed, not armed")
 	c.Observe("compaction and rollup ignore commitEditLog's boolean result — noticed, not armed (outputs stay unreferenced and are collected)")
@@ -981,4 +970,19 @@ func snapshotEnumeratesStateMaps(c *eng.Ctx, sn *ssa.Function) {
 				"key "+p.Desc(key)+" is not produced by ranging over "+t.accessor+"()")
 		}
 	}
+}
+
+func newTableBuilderClaimsFirst(c *eng.Ctx) {
+	p := c.P
+	_ = p
+	f := c.Fn(famT + ".newTableBuilder")
+	n := c.One(f, invokeOn(".store", "nextFileNumber"), "store.nextFileNumber()")
+	pe := c.One(f, eng.CallTo(famT+".addPendingOutput"), "addPendingOutput(n)")
+	mk := c.One(f, eng.CallTo("kv/table.NewStoreBuilder"), "table.NewStoreBuilder(n, path)")
+	c.Check(eng.DominatedBy(f, mk.Instr, []eng.Site{pe}, nil) && eng.DominatedBy(f, pe.Instr, []eng.Site{n}, nil), "allocate<pending<create", mk.Instr, f,
+		"the number is allocated, marked pending, and only then the file is created (cleanup can never see an unmarked unfinished file)", "")
+	nv := n.Instr.(ssa.Value)
+	ma := eng.CallArgs(mk.Instr.(*ssa.Call))
+	c.Check(eng.CallArgs(pe.Instr.(*ssa.Call))[0] == nv && ma[0] == nv && eng.DependsOn(ma[1], func(x ssa.Value) bool { return x == nv }), "one-number", mk.Instr, f,
+		"the pending mark, the builder's number and the file name all use the one allocated number", "")
 }
